@@ -1,0 +1,59 @@
+//go:build verif
+
+package field
+
+// Hooks for the /verif correspondence harness (compiled only with -tags verif).
+
+// VerifOp applies one operation of this package to elements given by their raw limbs (and, for
+// "setbytes", a byte string). It returns the raw limbs of the result, the integer result where the
+// operation has one, and the 32-byte encoding of the result. For "swap" the limbs are those of the
+// first operand after the swap and the encoding is that of the second.
+func VerifOp(op string, a, b [5]uint64, k uint64, x []byte) (r [5]uint64, n int, enc []byte) {
+	ea := &Element{a[0], a[1], a[2], a[3], a[4]}
+	eb := &Element{b[0], b[1], b[2], b[3], b[4]}
+	v := new(Element)
+	switch op {
+	case "mul":
+		v.Multiply(ea, eb)
+	case "sq":
+		v.Square(ea)
+	case "add":
+		v.Add(ea, eb)
+	case "sub":
+		v.Subtract(ea, eb)
+	case "neg":
+		v.Negate(ea)
+	case "inv":
+		v.Invert(ea)
+	case "pow22523":
+		v.Pow22523(ea)
+	case "mult32":
+		v.Mult32(ea, uint32(k))
+	case "abs":
+		v.Absolute(ea)
+	case "carry":
+		v.Set(ea).carryPropagate()
+	case "reduce":
+		v.Set(ea).reduce()
+	case "select":
+		v.Select(ea, eb, int(k))
+	case "swap":
+		ea.Swap(eb, int(k))
+		return [5]uint64{ea.l0, ea.l1, ea.l2, ea.l3, ea.l4}, 0, eb.Bytes()
+	case "sqrtratio":
+		_, n = v.SqrtRatio(ea, eb)
+	case "equal":
+		n = ea.Equal(eb)
+		v.Set(ea)
+	case "isneg":
+		n = ea.IsNegative()
+		v.Set(ea)
+	case "setbytes":
+		v.SetBytes(x)
+	case "bytes":
+		v.Set(ea)
+	default:
+		panic("field.VerifOp: unknown operation " + op)
+	}
+	return [5]uint64{v.l0, v.l1, v.l2, v.l3, v.l4}, n, v.Bytes()
+}
